@@ -3,7 +3,7 @@
             kind 0: window(w, s) with k capturing consumers      1: countByWindow(w, s) with k consumers
                  2: updateStateByKey(u) with k consumers         3: window and updateStateByKey on one source, k each
                  4: countByWindow and (registered after it) updateStateByKey on one source, k consumers each
-            ucode 0 sum, 1 last, 2 count, 3 append, 4 history, 5 idle, 6 decay; batches: the queue contents; times: the clock value of every tick
+            ucode 0 sum, 1 last, 2 count, 3 append, 4 history, 5 idle, 6 decay, 7 reset, 8 min-or-None; batches: the queue contents; times: the clock value of every tick
    result = VTup [VList node_kinds; VList ticks]
             node_kinds: the classes of ssc._dstreams in registration order (0 DStream, 1 Transformed, 2 Windowed, 3 Stateful)
             ticks: per tick VTup [VList [VTup [VInt consumer; captured]]; error], captured = VNone | VList elements
@@ -17,6 +17,7 @@ Definition ufun_of_code (c : Z) : option (list val -> val -> val) :=
   match c with
   | 0 => Some u_sum | 1 => Some u_last | 2 => Some u_count | 3 => Some u_append
   | 4 => Some u_history | 5 => Some u_idle | 6 => Some u_decay
+  | 7 => Some u_reset | 8 => Some u_minopt
   | _ => None
   end.
 
